@@ -69,6 +69,10 @@ func TestC17(t *testing.T) {
 	}
 	gate := newReplayGate(r, "C17", w.Root, w.Dir, false, 5, 1)
 	defer gate.Stop()
+	gate1000 := newReplayGateArgs(r, "C17", "-buf1000", w.Root, w.Dir, false, 1, 1, "--buffer-size=1000")
+	defer gate1000.Stop()
+	gate0 := newReplayGateArgs(r, "C17", "-buf0", w.Root, w.Dir, false, 1, 1, "--buffer-size=0")
+	defer gate0.Stop()
 	run := func(desc string, reqs []Req) {
 		m := newModel(w.Root, false)
 		res := runSession(t, SrvOpts{Root: w.Root}, m, reqs, Delivery{})
@@ -119,6 +123,12 @@ func TestC17(t *testing.T) {
 				reqs := []Req{mkReq(opOpenFile, "/"+im.name), cdReq(1, 3), rdcReq(100, 50), cdReq(0, 1), cdReq(nsect-1, 2)}
 				m := newModel(w.Root, false)
 				res := runSession(t, SrvOpts{Root: w.Root, BufSize: bs}, m, reqs, Delivery{})
+				switch bs {
+				case 1000:
+					gate1000.maybe(newModel(w.Root, false), reqs, res, sprintf("%s --buffer-size=1000", im.name), nil)
+				case -1:
+					gate0.maybe(newModel(w.Root, false), reqs, res, sprintf("%s --buffer-size=0", im.name), nil)
+				}
 				r.Transition(int64(len(res.Steps)))
 				r.Eval(1)
 				key := sprintf("%s|bufsize=%d", im.name, bs)
